@@ -199,7 +199,8 @@ pub fn record(args: &[String]) -> i32 {
         "1.5千5百", "1.5千500", "6.", "6.ア", ".6", "1,000", "0,000", "000,000", "2,4", "1000,00", "一,億", "1,,000", "123,456,789", "1,234.56", "二〇〇〇万", "一億三千万", "六三四", "1,234,567.89", "12,345,6", "二万1.5千", "1.5億2,300", "3.2兆4,500.75",
         // groups that do not add up, followed by a dangling separator (the part before the separator is not a numeral either)
         "1.5千600.", "3.27万2604.", "1.5千600,", "二千三千.", "1万2万,", "1.5千600", "3.27万2604", "7,726兆955億7.16万8637."];
-    let lefts = ["は", "", "ア", "、", "カタカナ", "円"];
+    // some left contexts hold separators that cannot belong to a numeral, followed by other tokens: what they switch off must be back on for `s`
+    let lefts = ["は", "", "ア", "、", "カタカナ", "円", "円,約と", "版.約は", "1,23,と", "1.2.3.は", ",は", ".ア", "円,.は"];
     let rights = ["円", "", "は", "ア", "。", "カ"];
     let mut run = 0usize;
     let mut cases: Vec<String> = fixtures.iter().map(|s| s.to_string()).collect();
